@@ -138,7 +138,11 @@ func scTransportChannel(r *Run) {
 	secrets := [][]byte{magicPayload, []byte(magicName), append([]byte(nil), srv.Key.Public[:]...)}
 
 	// (d) confidentiality: scan everything the endpoints put on the wire
+	var genuinePkts []*Dgram
 	n.OnSend = func(d *Dgram) {
+		if len(d.Data) >= 48 && (d.Data[0] == 0x10 || d.Data[0] == 0x80) && len(genuinePkts) < 300 {
+			genuinePkts = append(genuinePkts, d.clone())
+		}
 		for i, s := range secrets {
 			if bytes.Contains(d.Data, s) {
 				r.Violate("C03/plaintext-on-wire", "datagram #%d (%s, %d bytes) %s>%s contains secret #%d (%q…) in clear", d.ID, typeName(d.Data), len(d.Data), d.Src, d.Dst, i, s[:min(8, len(s))])
@@ -341,6 +345,33 @@ func scTransportChannel(r *Run) {
 				}
 				s := sessions[r.Intn("atk", len(sessions))]
 				vs, _ := s.tc.C.VerifSession()
+				if len(genuinePkts) > 0 && r.Intn("atk", 3) == 0 {
+					// cross-session / cross-direction injection of a GENUINE packet: delivered to the
+					// other end of its own session (wrong direction), or to another session with or
+					// without the session id rewritten to the victim's
+					g := genuinePkts[r.Intn("atk", len(genuinePkts))].clone()
+					g.Copy = 700
+					g.Mut = "cross-injected"
+					switch r.Intn("atk", 3) {
+					case 0: // back to where it came from (cross-direction)
+						g.Dst, g.From = g.Src, g.Dst
+					case 1: // into the victim session, header untouched
+						g.Dst = s.tc.Addr
+						if r.Intn("atk", 2) == 0 {
+							g.Dst = srv.Addr
+						}
+					default: // into the victim session with its session id
+						copy(g.Data[4:8], vs.ID[:])
+						g.Dst = s.tc.Addr
+						if r.Intn("atk", 2) == 0 {
+							g.Dst = srv.Addr
+						}
+					}
+					n.Redeliver(g, 0)
+					r.CountFault("cross-injected-genuine-packet", 1)
+					time.Sleep(time.Duration(r.Intn("atk", 50)) * time.Millisecond)
+					continue
+				}
 				sz := 16 + 32 + r.Intn("atk", 200)
 				if r.Intn("atk", 5) == 0 {
 					sz = r.Intn("atk", 60)
